@@ -156,6 +156,37 @@ lock; a top-up and a charge (that both succeed) give the same balance in either 
 theorem slot_updates_commute (s a d r : Nat) (hd : d ≤ s) :
     (s + a) - d = (s - d) + a ∧ (s + r) - d = (s - d) + r ∧ (s + a) + r = (s + r) + a := by omega
 
+/-- `update_user` touches only the `users` table -/
+theorem updateUser_appts (d : Db) (u : User) (i : UserInfo) : (d.updateUser u i).appts = d.appts := by
+  unfold Db.updateUser; cases d.users u <;> rfl
+
+/-- **topup_and_charge_commute** (no lost slot update, on the modelled read-modify-write steps
+themselves rather than on bare arithmetic): a renewal of `u` (`Gatekeeper::add_update_user`,
+existing user) and a charge or refund of `u` (`Gatekeeper::add_update_appointment`) that both
+succeed leave `u` with the same record in memory whichever of them takes the users lock first —
+and it is the record with both updates applied. (`hcap` keeps the top-up under the u32 cap in
+both orders: after a refund-first the renewal could otherwise answer MaxSlotsReached.) -/
+theorem topup_and_charge_commute (cfg : Cfg) (s : Tower) (u : User) (ui : UserInfo) (k : Uuid) (len : Nat)
+    (hu : s.mem.users u = some ui)
+    (hcap : ui.slots + cfg.slots + slotsOf (((s.db.appts k).map fun a => a.blob.len).getD 0) ≤ u32Max)
+    (hfit : slotsOf len ≤ ui.slots + slotsOf (((s.db.appts k).map fun a => a.blob.len).getD 0)) :
+    (addUpdateAppointment (addUpdateUser cfg s u).1 u k len).1.mem.users u =
+      (addUpdateUser cfg (addUpdateAppointment s u k len).1 u).1.mem.users u ∧
+    ((addUpdateAppointment (addUpdateUser cfg s u).1 u k len).1.mem.users u).map (·.slots) =
+      some (ui.slots + cfg.slots + slotsOf (((s.db.appts k).map fun a => a.blob.len).getD 0) - slotsOf len) := by
+  have h1 : ¬ (ui.slots + cfg.slots > u32Max) := by omega
+  generalize hused : slotsOf (((s.db.appts k).map fun a => a.blob.len).getD 0) = used at *
+  have hfit1 : Gen.slotsFit ((slotsOf len : Int) - (used : Int)) ((ui.slots + cfg.slots : Nat) : Int) = true := by
+    unfold Gen.slotsFit; apply decide_eq_true; omega
+  have hfit2 : Gen.slotsFit ((slotsOf len : Int) - (used : Int)) (ui.slots : Int) = true := by
+    unfold Gen.slotsFit; apply decide_eq_true; omega
+  have h2 : ¬ (((ui.slots : Int) - ((slotsOf len : Int) - (used : Int))).toNat + cfg.slots > u32Max) := by omega
+  unfold addUpdateAppointment addUpdateUser
+  simp only [hu, h1, ↓reduceIte, updateUser_appts, hused, hfit1, hfit2, h2]
+  constructor
+  · simp; omega
+  · simp; omega
+
 /-- **no_orphan_record**: an appointment cannot be inserted for a user that is gone, a tracker
 cannot be inserted without its appointment, and removing a user removes everything it owns -/
 theorem no_orphan_record (d : Db) (k : Uuid) (a : Appt) (t : Tracker) :
